@@ -13,7 +13,9 @@
    4.5); the verdict class the model stated for the case (field cls) is only cross-checked (position field of the VERDICT line): key needs
    ok / soft, ValueError needs no / soft, either is compatible with everything.  Permissive spots are the named operators of
    KeyInvariants (KiRsaLargeD, KiEdSmallOrderPublic, KiMtNonCanonicalU, KiEdNonCanonicalAccepted) and, here, RsaUnfactoredModulus,
-   ImportIgnoresCrtFields, PublicValueNotInSubgroup.  Clauses starting with "harness:" are recorder inconsistencies (machinery). *)
+   RsaExponentSharesFactorWithModulus, ImportIgnoresCrtFields, PublicValueNotInSubgroup, GenElGamalRefusal.  Clauses starting with
+   "harness:" are recorder inconsistencies (machinery).  An outcome that is neither a key nor an exception ("Timeout": the call did not
+   return within the recorder's deadline; "Crash": it killed the interpreter) is judged like an exception of another class than ValueError. *)
 EXTENDS Integers, Sequences, FiniteSets, TLC, Json, IOUtils
 KI == INSTANCE KeyInvariants
 Traces == JsonDeserialize(IOEnv.TRACE_FILE)
